@@ -103,6 +103,10 @@ def battery(elf):
         elif tn == 'NoteSection':
             for note in sec.iter_notes():
                 n += 1
+        elif tn in ('GNUHashSection', 'ELFHashSection'):
+            sec.get_number_of_symbols()         # the symbol count recovered from the hash table
+        elif tn == 'GNUVerSymSection':
+            sec.num_symbols()
     for seg in elf.iter_segments():
         seg.header
         n += 1
@@ -110,6 +114,7 @@ def battery(elf):
         if tn == 'DynamicSegment':
             for t in seg.iter_tags():
                 n += 1
+            seg.num_symbols()                   # symbol count through DT_HASH / DT_GNU_HASH
         elif tn == 'NoteSegment':
             for note in seg.iter_notes():
                 n += 1
@@ -205,6 +210,13 @@ def kitchen_sink(cls, le):
     img.seg(eg.Seg(4, 4, of=note, align=4))
     img.layout()
     img.segs[2].filesz = img.segs[2].memsz = img.total
+    # the PT_LOAD maps the file at 0x400000: make every table address (and the dynamic pointers to them) agree with it, so that the
+    # dynamic segment finds its tables (symbol count through DT_HASH / DT_GNU_HASH) in the unfaulted seed
+    for s_ in (hsec, gsec, dynsym, dynstr, versym, verneed, rela):
+        s_.addr = 0x400000 + s_.offset
+    tags = [(1, lib), (4, hsec.addr), (0x6ffffef5, gsec.addr), (5, dynstr.addr), (6, dynsym.addr), (10, len(st.bytes())), (11, f.symsize), (7, rela.addr),
+            (8, 2 * f.relasize), (9, f.relasize), (0x6ffffffe, verneed.addr), (0x6fffffff, 1), (0x6ffffff0, versym.addr), (0, 0)]
+    dyn.data = b''.join(f.dyn(t, v) for t, v in tags)
     return img.encode()
 
 
